@@ -281,6 +281,9 @@ func (vc *VC) execInstr(fr *Frame, st *State, pc string, in ssa.Instruction) {
 		ln := vc.toInt(vc.value(fr, st, t.Len))
 		cp := vc.toInt(vc.value(fr, st, t.Cap))
 		vc.oblige("nopanic.makeslice", "", pc, fmt.Sprintf("(and (<= 0 %s) (<= %s %s))", ln.S, ln.S, cp.S), t.Pos(), "make: 0 <= len <= cap")
+		if fr.spec != nil && fr.spec.AllocBound || vc.spec != nil && vc.spec.AllocBound {
+			vc.oblige("alloc.bound", "", pc, "(<= "+cp.S+" alloc_hint_max)", t.Pos(), "allocation size is bounded (not chosen freely by the peer)")
+		}
 		et := t.Type().Underlying().(*types.Slice).Elem()
 		r := vc.newRef(st, pc)
 		key := vc.memKey(et)
